@@ -77,7 +77,7 @@ func (lex *Lexer) isNotStringVar() bool {
 		return true
 	}
 
-	if len(lex.data) < p+1 {
+	if len(lex.data) <= p+1 {
 		return true
 	}
 
